@@ -495,6 +495,70 @@ func runC13(p *core.Prog, r *core.Report, tier string) {
 	}
 	r.Floor("C13.p validators requests of the validators manager", nOpts, 1)
 
+	// ---- (q) a refresh that received validators replaces what is cached: in RefreshValidatorsFromBeaconNode every
+	// successful return passes the store of the new maps, except the one taken when nothing was received — no
+	// "unchanged, skip" shortcut (what it would compare is never everything the account managers read: exit epochs,
+	// the slashed flag) ----
+	if rf := p.Func("services/validatorsmanager/standard", "Service", "RefreshValidatorsFromBeaconNode"); rf != nil {
+		var stores []ssa.Instruction
+		core.EachInstr(rf, func(in ssa.Instruction) {
+			if st, ok := in.(*ssa.Store); ok {
+				if fid, _, ok := core.FieldOfAddr(st.Addr); ok && fid.Name == "validatorsByIndex" {
+					stores = append(stores, in)
+				}
+			}
+		})
+		emptyEdges := core.GuardEdges(ds, rf, func(c core.Cond) int {
+			if c.Op == "" || c.X == nil || c.Y == nil {
+				return -1
+			}
+			isLen := func(d *core.VD) bool {
+				if call, ok := d.Val.(*ssa.Call); ok {
+					if b, ok := call.Call.Value.(*ssa.Builtin); ok && b.Name() == "len" {
+						return true
+					}
+				}
+				return false
+			}
+			var k *core.VD
+			if isLen(c.X) {
+				k = c.Y
+			} else if isLen(c.Y) {
+				k = c.X
+			} else {
+				return -1
+			}
+			if k.Kind != "const" || k.Name != "0" {
+				return -1
+			}
+			for e := 0; e < 2; e++ {
+				if c.RelOnEdge(e) == "==" {
+					return e
+				}
+			}
+			return -1
+		})
+		w := core.PathQuery{Fn: rf, Target: func(in ssa.Instruction) bool {
+			rt, ok := in.(*ssa.Return)
+			return ok && in.Block() != rf.Recover && len(rt.Results) == 1 && core.IsNilConst(core.Unspill(rt.Results[0]))
+		}, Avoid: func(in ssa.Instruction) bool {
+			for _, st := range stores {
+				if in == st {
+					return true
+				}
+			}
+			return false
+		}, Edge: func(b *ssa.BasicBlock, succ int) bool {
+			if e, ok := emptyEdges[b]; ok && e == succ {
+				return false
+			}
+			return true
+		}}.Find()
+		r.Check(len(stores) > 0 && w == nil, "C13.q", core.FnKey(rf)+"|non-empty-refresh-replaces-cache", p.Pos(rf.Pos()), "a refresh that received validators always stores them", "the refresh can return successfully without storing the validators it received (other than when it received none): a validator whose state changed — slashed, exit epoch set — keeps its old record and is still reported as validating", p.WitnessText(w)...)
+	} else {
+		r.Undecide("C13.q", "services/validatorsmanager/standard.Service.RefreshValidatorsFromBeaconNode", "", "anchor not found")
+	}
+
 	// ---- (n) what is remembered about an account is remembered under something that identifies the account: a
 	// package-level collection (a map, a sync.Map) in util or the account managers is not keyed by the bare account name
 	// — accounts of different wallets share names ----
